@@ -327,7 +327,7 @@ def run_case(ctx, case):
                             return o.viol("neg|infinity", "%s: the negation of the point at infinity (%s) is not the point at infinity" % (name, what))
                     if aff(E.INFINITY + A) != P or aff(A + E.INFINITY) != P:
                         return o.viol("jacobi|add|infinity", "%s: adding INFINITY to %r wrong" % (name, P))
-                    if (int(A.x()) % cv.p, int(A.y()) % cv.p) != P:
+                    if (int(A.x()), int(A.y())) != P:
                         return o.viol("jacobi|xy", "%s: x()/y() of %r(Z=%d) wrong" % (name, P, z1))
             o.extra = {"group_operations": ops}
             return o
